@@ -459,8 +459,8 @@ def r98(ctx, fx):
                     ctx.finding(rid, "merge|moves-image-bytes#%d" % j, "Bank::merge moves bytes of the image that is already there (`%s`): what they leave behind is not the "
                                 "fill value — the gap between a segment merged later at a lower address and the rest of the bank holds copies of the bank's first bytes"
                                 % x.get("name"), "%s:%s" % (mg.file, x.get("ln")))
-    if n < 2:
-        ctx.fail_closed(rid, "fewer than 2 operations on the bank image found in Bank::merge (%d)" % n)
+    if n < 1:
+        ctx.fail_closed(rid, "no operation on the bank image found in Bank::merge")
 
 
 def run(ctx):
